@@ -1,0 +1,54 @@
+//go:build verif
+
+// Spec predicates for the table half of the XML reader and for table copies (properties C09, C03), read by
+// /verif/engine (govc). The contracts that use them are the parseTable* entries of zz_contracts_verif_reader.go
+// and the clone family (zz_contracts_verif_clone.go, CopyTable in zz_contracts_verif_table2.go).
+// Comments only: with or without the build tag this file adds no code to the package.
+//
+// How the C09 induction reaches opened documents and copies: parseTable (for every token stream) and cloneTable /
+// CopyTable (for every source table) ESTABLISH rowsOwn, cellPropsOwn, rowPropsOwn, cellParasOwn, paraRunsOwn for
+// their result, exactly as the three constructors do; AddNestedTable PRESERVES them for the outer table. The proof is
+// by allocation intervals: every call of parseTableCell / parseTableRow (cloneTableCell / cloneTableRow) returns parts
+// allocated at or after its own entry bound (<x>PartsAbove) and the parts collected so far are allocated (<x>PartsLive),
+// hence below that bound - so what a later call returns is distinct from everything collected before (cellsApart,
+// rowsApart), and the five predicates follow at the return of parseTable / cloneTable by instantiation.
+// The reader does NOT establish non-nil Grid / Properties / cell properties or "at least one paragraph per cell"
+// (no tblGrid, tblPr, tcPr or w:p in the stream); no editor under contract requires them.
+package document
+
+// Side objects of a borders / margins element: <x>Above(b, lo) - every side is nil or was allocated at or after the
+// allocation counter stood at lo; <x>Live(b) - every side is allocated now (needed to tell it from what later
+// iterations allocate); <x>Apart(b) - no two non-nil sides are the same object.
+//@ spec tblBordersAbove(b *TableBorders, lo int) bool = above(b.Top, lo) && above(b.Left, lo) && above(b.Bottom, lo) && above(b.Right, lo) && above(b.InsideH, lo) && above(b.InsideV, lo)
+//@ spec tblBordersLive(b *TableBorders) bool = live(b.Top) && live(b.Left) && live(b.Bottom) && live(b.Right) && live(b.InsideH) && live(b.InsideV)
+//@ spec tblBordersApart(b *TableBorders) bool = (b.Top == nil || (b.Top != b.Left && b.Top != b.Bottom && b.Top != b.Right && b.Top != b.InsideH && b.Top != b.InsideV)) && (b.Left == nil || (b.Left != b.Bottom && b.Left != b.Right && b.Left != b.InsideH && b.Left != b.InsideV)) && (b.Bottom == nil || (b.Bottom != b.Right && b.Bottom != b.InsideH && b.Bottom != b.InsideV)) && (b.Right == nil || (b.Right != b.InsideH && b.Right != b.InsideV)) && (b.InsideH == nil || (b.InsideH != b.InsideV))
+//@ spec tcBordersAbove(b *TableCellBorders, lo int) bool = above(b.Top, lo) && above(b.Left, lo) && above(b.Bottom, lo) && above(b.Right, lo) && above(b.InsideH, lo) && above(b.InsideV, lo) && above(b.TL2BR, lo) && above(b.TR2BL, lo)
+//@ spec tcBordersLive(b *TableCellBorders) bool = live(b.Top) && live(b.Left) && live(b.Bottom) && live(b.Right) && live(b.InsideH) && live(b.InsideV) && live(b.TL2BR) && live(b.TR2BL)
+//@ spec tcBordersApart(b *TableCellBorders) bool = (b.Top == nil || (b.Top != b.Left && b.Top != b.Bottom && b.Top != b.Right && b.Top != b.InsideH && b.Top != b.InsideV && b.Top != b.TL2BR && b.Top != b.TR2BL)) && (b.Left == nil || (b.Left != b.Bottom && b.Left != b.Right && b.Left != b.InsideH && b.Left != b.InsideV && b.Left != b.TL2BR && b.Left != b.TR2BL)) && (b.Bottom == nil || (b.Bottom != b.Right && b.Bottom != b.InsideH && b.Bottom != b.InsideV && b.Bottom != b.TL2BR && b.Bottom != b.TR2BL)) && (b.Right == nil || (b.Right != b.InsideH && b.Right != b.InsideV && b.Right != b.TL2BR && b.Right != b.TR2BL)) && (b.InsideH == nil || (b.InsideH != b.InsideV && b.InsideH != b.TL2BR && b.InsideH != b.TR2BL)) && (b.InsideV == nil || (b.InsideV != b.TL2BR && b.InsideV != b.TR2BL)) && (b.TL2BR == nil || (b.TL2BR != b.TR2BL))
+//@ spec tblMarAbove(b *TableCellMargins, lo int) bool = above(b.Top, lo) && above(b.Left, lo) && above(b.Bottom, lo) && above(b.Right, lo)
+//@ spec tblMarLive(b *TableCellMargins) bool = live(b.Top) && live(b.Left) && live(b.Bottom) && live(b.Right)
+//@ spec tblMarApart(b *TableCellMargins) bool = (b.Top == nil || (b.Top != b.Left && b.Top != b.Bottom && b.Top != b.Right)) && (b.Left == nil || (b.Left != b.Bottom && b.Left != b.Right)) && (b.Bottom == nil || (b.Bottom != b.Right))
+//@ spec tcMarAbove(b *TableCellMarginsCell, lo int) bool = above(b.Top, lo) && above(b.Left, lo) && above(b.Bottom, lo) && above(b.Right, lo)
+//@ spec tcMarLive(b *TableCellMarginsCell) bool = live(b.Top) && live(b.Left) && live(b.Bottom) && live(b.Right)
+//@ spec tcMarApart(b *TableCellMarginsCell) bool = (b.Top == nil || (b.Top != b.Left && b.Top != b.Bottom && b.Top != b.Right)) && (b.Left == nil || (b.Left != b.Bottom && b.Left != b.Right)) && (b.Bottom == nil || (b.Bottom != b.Right))
+
+// Parts of a cell the C09 ownership predicates speak about: the properties object, the paragraph array, the run array
+// of every paragraph. cellPartsAbove(c, lo): each of them was allocated at or after the allocation counter stood at lo
+// (the arrays exist: the reader makes them even for an empty cell / paragraph); cellPartsLive(c): each is allocated now;
+// cellRunsApart(c): no two paragraphs of the cell share a run array.
+//@ spec cellPartsAbove(c *TableCell, lo int) bool = above(c.Properties, lo) && arr(c.Paragraphs) != 0 && arr(c.Paragraphs) >= lo && (forall k int :: {c.Paragraphs[k]} 0 <= k && k < len(c.Paragraphs) ==> arr(c.Paragraphs[k].Runs) != 0 && arr(c.Paragraphs[k].Runs) >= lo)
+//@ spec cellPartsLive(c *TableCell) bool = live(c.Properties) && arr(c.Paragraphs) < allocBound() && (forall k int :: {c.Paragraphs[k]} 0 <= k && k < len(c.Paragraphs) ==> arr(c.Paragraphs[k].Runs) < allocBound())
+//@ spec cellRunsApart(c *TableCell) bool = forall k1 int, k2 int :: {c.Paragraphs[k1], c.Paragraphs[k2]} 0 <= k1 && k1 < k2 && k2 < len(c.Paragraphs) ==> arr(c.Paragraphs[k1].Runs) != arr(c.Paragraphs[k2].Runs)
+
+// cellsApart(a, b): two cells share neither their properties object nor their paragraph array nor a run array.
+//@ spec cellsApart(a *TableCell, b *TableCell) bool = (a.Properties == nil || a.Properties != b.Properties) && arr(a.Paragraphs) != arr(b.Paragraphs) && (forall k1 int, k2 int :: {a.Paragraphs[k1], b.Paragraphs[k2]} 0 <= k1 && k1 < len(a.Paragraphs) && 0 <= k2 && k2 < len(b.Paragraphs) ==> arr(a.Paragraphs[k1].Runs) != arr(b.Paragraphs[k2].Runs))
+
+// The same one level up: the parts of a row are its properties object, its cell array and the parts of its cells.
+//@ spec rowPartsAbove(r *TableRow, lo int) bool = above(r.Properties, lo) && arr(r.Cells) != 0 && arr(r.Cells) >= lo && (forall c int :: {r.Cells[c]} 0 <= c && c < len(r.Cells) ==> cellPartsAbove(&r.Cells[c], lo))
+//@ spec rowPartsLive(r *TableRow) bool = live(r.Properties) && arr(r.Cells) < allocBound() && (forall c int :: {r.Cells[c]} 0 <= c && c < len(r.Cells) ==> cellPartsLive(&r.Cells[c]))
+//@ spec rowRunsApart(r *TableRow) bool = forall c int :: {r.Cells[c]} 0 <= c && c < len(r.Cells) ==> cellRunsApart(&r.Cells[c])
+//@ spec rowCellsApart(r *TableRow) bool = forall c1 int, c2 int :: {r.Cells[c1], r.Cells[c2]} 0 <= c1 && c1 < c2 && c2 < len(r.Cells) ==> cellsApart(&r.Cells[c1], &r.Cells[c2])
+
+// rowsApart(a, b): two rows share neither their properties object nor their cell array, and no cell of one shares
+// anything with a cell of the other.
+//@ spec rowsApart(a *TableRow, b *TableRow) bool = (a.Properties == nil || a.Properties != b.Properties) && arr(a.Cells) != arr(b.Cells) && (forall c1 int, c2 int :: {a.Cells[c1], b.Cells[c2]} 0 <= c1 && c1 < len(a.Cells) && 0 <= c2 && c2 < len(b.Cells) ==> cellsApart(&a.Cells[c1], &b.Cells[c2]))
